@@ -253,7 +253,17 @@ func (w *decWorker) stop() {
 }
 
 // DecPool runs cases on worker children, restarting a worker that died or got stuck.
-type DecPool struct{ w *decWorker }
+type DecPool struct {
+	w   *decWorker
+	bad int // hang / oom / crash verdicts so far
+}
+
+// decMaxBad: after this many hang / oom / crash verdicts the generators stop producing cases
+// (each costs the watchdog's 2 s and a fresh child; a handful of replays is what is needed).
+const decMaxBad = 6
+
+// Tripped reports that the run has seen enough non-terminating / crashing cases.
+func (p *DecPool) Tripped() bool { return p.bad >= decMaxBad }
 
 func (p *DecPool) Close() {
 	if p.w != nil {
@@ -287,6 +297,7 @@ func (p *DecPool) Run(line string) string {
 		if r.err != nil {
 			// the child died without an answer (memory cap of ulimit -v, fatal runtime error)
 			p.Close()
+			p.bad++
 			return "crash"
 		}
 		last := s
@@ -295,10 +306,12 @@ func (p *DecPool) Run(line string) string {
 		}
 		if last == "hang" || last == "oom" {
 			p.Close()
+			p.bad++
 		}
 		return s
 	case <-time.After(decWatchdog + 8*time.Second):
 		p.Close()
+		p.bad++
 		return "hang"
 	}
 }
